@@ -407,6 +407,29 @@ def gen_scenarios(rng):
         ops.append({"op": "manage", "now": now, "kind": "requeue_dead", "ids": ["d0", "d%d" % (n - 1)]})
         ops.append({"op": "stats", "now": now})
         hs.append({"cfg": cfg, "ops": ops, "snap_every": 1, "c13_ok": True})
+    # S8: ONE batch lease operation presents leases that have run out (and were not swept: no dequeue in between) together with leases
+    #     that are valid for minutes: each is judged on its own - the expired ones go back to the queue, the valid ones are settled
+    for k in range(3):
+        now = BASE + rng.randrange(1000) * SEC
+        ops = []
+        for i in range(6):
+            now += MS
+            ops.append({"op": "enqueue", "now": now, "enq": [_enq("b%d" % i, body=95 + i)]})
+        now += MS
+        ops.append({"op": "dequeue", "now": now, "route": "", "target": "", "batch": 3, "ttl": 2 * SEC})        # short leases
+        d_short = len(ops) - 1
+        now += MS
+        ops.append({"op": "dequeue", "now": now, "route": "", "target": "", "batch": 3, "ttl": 600 * SEC})      # long leases
+        d_long = len(ops) - 1
+        now += 5 * SEC
+        refs = [{"ref": [d_short, i]} for i in range(3)] + [{"ref": [d_long, i]} for i in range(3)]
+        rng.shuffle(refs)
+        kind = ["ack", "nack", "dead"][k]
+        ops.append({"op": "lease_batch", "now": now, "kind": kind, "dur": (30 * SEC if kind == "nack" else 0), "reason": "boom", "leases": refs})
+        now += MS
+        ops.append({"op": "dequeue", "now": now, "route": "", "target": "", "batch": 10, "ttl": SEC})
+        ops.append({"op": "stats", "now": now})
+        hs.append({"cfg": _cfg0(deliv_age=(3600 * SEC if k == 0 else 0)), "ops": ops, "snap_every": 1})
     # S7: the DLQ is over its depth cap while OLDER messages are still alive (queued on another route, or leased): the trim removes dead
     #     messages only
     for k in range(2):
